@@ -4,8 +4,26 @@
 package simpool
 
 import (
+	"reflect"
+	"unsafe"
+
 	"github.com/CrowdStrike/csproto/lazyproto"
 )
+
+// ident gives pooled objects an identity that is safe for any dynamic type (a pool may hold slices or
+// other uncomparable values): the address they refer to, or nil if there is none.
+func ident(x any) unsafe.Pointer {
+	v := reflect.ValueOf(x)
+	switch v.Kind() {
+	case reflect.Pointer, reflect.UnsafePointer, reflect.Map, reflect.Chan, reflect.Func:
+		return v.UnsafePointer()
+	case reflect.Slice:
+		if v.Cap() > 0 {
+			return v.Slice(0, v.Cap()).Index(0).Addr().UnsafePointer()
+		}
+	}
+	return nil
+}
 
 // Policy is how a Get picks among stored objects.
 type Policy int
@@ -58,13 +76,13 @@ type Model struct {
 	Pristine bool // oracle mode: every Get misses, every Put is discarded, nothing is counted
 	pools    map[*lazyproto.VerifPool]*poolState
 	order    []*poolState
-	origin   map[any]int // object -> pool index that first saw it
+	origin   map[unsafe.Pointer]int // object identity -> pool index that first saw it
 	S        Stats
 }
 
 // New returns an empty model.
 func New(cfg Config, ch Chooser) *Model {
-	return &Model{Cfg: cfg, Ch: ch, pools: map[*lazyproto.VerifPool]*poolState{}, origin: map[any]int{}}
+	return &Model{Cfg: cfg, Ch: ch, pools: map[*lazyproto.VerifPool]*poolState{}, origin: map[unsafe.Pointer]int{}}
 }
 
 func (m *Model) pool(p *lazyproto.VerifPool) *poolState {
@@ -115,14 +133,16 @@ func (m *Model) Put(p *lazyproto.VerifPool, x any) {
 	}
 	ps := m.pool(p)
 	m.S.Puts++
-	if o, ok := m.origin[x]; !ok {
-		m.origin[x] = ps.idx
-	} else if o != ps.idx {
-		m.S.RecycledAcrossPools++
-	}
-	for _, y := range ps.stored {
-		if y == x {
-			m.S.DoublePuts++
+	if id := ident(x); id != nil {
+		if o, ok := m.origin[id]; !ok {
+			m.origin[id] = ps.idx
+		} else if o != ps.idx {
+			m.S.RecycledAcrossPools++
+		}
+		for _, y := range ps.stored {
+			if ident(y) == id {
+				m.S.DoublePuts++
+			}
 		}
 	}
 	if m.Cfg.DropOnPutPct > 0 && m.Ch.Intn(100, "drop_on_put") < m.Cfg.DropOnPutPct {
